@@ -597,3 +597,114 @@ class Net:
         AccConn(acc, transport, loop, len(acc.conns), sock.host)
         await waiter
         return transport, protocol
+
+
+# ---------------------------------------------------------------- differential self-test of FakeTransport against asyncio's socket transport
+def selftest():
+    """Runs five scenarios over a real TCP loopback connection and over FakeTransport and compares the callback sequences."""
+    import socket
+
+    class RecProto(asyncio.Protocol):
+        def __init__(self, log, raise_on=None, keep_open=False):
+            self.log, self.raise_on, self.keep_open = log, raise_on, keep_open
+
+        def connection_made(self, t):
+            self.t = t
+            self.log.append("made")
+
+        def data_received(self, d):
+            self.log.append("data:" + bytes(d).decode())
+            if self.raise_on and self.raise_on in bytes(d):
+                raise RuntimeError("boom")
+
+        def eof_received(self):
+            self.log.append("eof")
+            return self.keep_open
+
+        def connection_lost(self, exc):
+            self.log.append("lost:" + (type(exc).__name__ if exc else "None"))
+
+    SCEN = ["peer-data-then-fin", "protocol-raises", "local-close-then-write", "peer-reset", "eof-keep-open"]
+
+    async def real(scen):
+        loop = asyncio.get_running_loop()
+        srv = socket.socket()
+        srv.bind(("127.0.0.1", 0))
+        srv.listen(1)
+        cli = socket.socket()
+        cli.setblocking(False)
+        try:
+            cli.connect(srv.getsockname())
+        except BlockingIOError:
+            pass
+        peer, _ = srv.accept()
+        srv.close()
+        log = []
+        proto = RecProto(log, raise_on=b"bad" if scen == "protocol-raises" else None, keep_open=scen == "eof-keep-open")
+        t, _ = await loop.create_connection(lambda: proto, sock=cli)
+        await asyncio.sleep(0.02)
+        if scen == "peer-data-then-fin":
+            peer.sendall(b"hello")
+            await asyncio.sleep(0.02)
+            peer.shutdown(socket.SHUT_WR)
+        elif scen == "protocol-raises":
+            peer.sendall(b"bad")
+        elif scen == "local-close-then-write":
+            t.close()
+            t.write(b"x")
+            t.close()
+        elif scen == "peer-reset":
+            peer.setsockopt(socket.SOL_SOCKET, socket.SO_LINGER, struct.pack("ii", 1, 0))
+            peer.close()
+        elif scen == "eof-keep-open":
+            peer.shutdown(socket.SHUT_WR)
+            await asyncio.sleep(0.02)
+            log.append("closing:" + str(t.is_closing()))
+            t.close()
+        await asyncio.sleep(0.05)
+        try:
+            peer.close()
+        except OSError:
+            pass
+        t.abort()
+        return log
+
+    async def fake(scen):
+        loop = asyncio.get_running_loop()
+        log = []
+        proto = RecProto(log, raise_on=b"bad" if scen == "protocol-raises" else None, keep_open=scen == "eof-keep-open")
+        t = FakeTransport(loop, FakeSocket(None, "127.0.0.1", 1), proto)
+        loop.call_soon(proto.connection_made, t)
+        await asyncio.sleep(0.02)
+        if scen == "peer-data-then-fin":
+            t.feed(b"hello")
+            await asyncio.sleep(0.02)
+            t.feed_eof()
+        elif scen == "protocol-raises":
+            t.feed(b"bad")
+        elif scen == "local-close-then-write":
+            t.close()
+            t.write(b"x")
+            t.close()
+        elif scen == "peer-reset":
+            t.feed_reset()
+        elif scen == "eof-keep-open":
+            t.feed_eof()
+            await asyncio.sleep(0.02)
+            log.append("closing:" + str(t.is_closing()))
+            t.close()
+        await asyncio.sleep(0.05)
+        return log
+
+    async def both():
+        import logging
+        logging.getLogger("asyncio").setLevel(logging.CRITICAL)
+        for s in SCEN:
+            a, b = await real(s), await fake(s)
+            if a != b:
+                raise AssertionError(f"FakeTransport differs from asyncio's socket transport in scenario {s}: real {a} fake {b}")
+    loop = asyncio.new_event_loop()
+    try:
+        loop.run_until_complete(both())
+    finally:
+        loop.close()
